@@ -109,3 +109,5 @@ func TestVerifC07Aac(t *testing.T) {
 	}
 	vC07Drive(t, decs, helpers, fams, 800, 10000)
 }
+
+func FuzzVerifC07Aac(f *testing.F) { vC07FuzzTarget(f, TestVerifC07Aac) }
